@@ -329,3 +329,50 @@ func printable(s string) string {
 	q := strconv.QuoteToASCII(s)
 	return q[1 : len(q)-1]
 }
+
+// MergeInpkg folds the result file of an in-package (overlay) monitor into
+// this run. A missing file is counted as inconclusive, never as a pass.
+func (r *Run) MergeInpkg(class string) {
+	path := os.Getenv("VERIF_INPKG_RESULT")
+	if r.Replaying() {
+		return
+	}
+	if path == "" {
+		r.Inconclusive("in-package monitor " + class + " did not run")
+		return
+	}
+	b, err := os.ReadFile(path)
+	if err != nil {
+		r.Inconclusive("in-package monitor " + class + " result unreadable")
+		return
+	}
+	var res struct {
+		Evaluations int64            `json:"evaluations"`
+		Counters    map[string]int64 `json:"counters"`
+		Violations  []struct {
+			Key    string `json:"key"`
+			What   string `json:"what"`
+			Detail any    `json:"detail"`
+		} `json:"violations"`
+		Samples []any `json:"samples"`
+	}
+	if err := json.Unmarshal(b, &res); err != nil {
+		r.Inconclusive("in-package monitor " + class + " result unparsable")
+		return
+	}
+	r.mu.Lock()
+	r.evals += res.Evaluations
+	for k, v := range res.Counters {
+		r.counters["inpkg."+k] += v
+		h := fnv.New64a()
+		h.Write([]byte("inpkg." + k))
+		r.shapes[h.Sum64()] = struct{}{}
+	}
+	r.mu.Unlock()
+	for _, s := range res.Samples {
+		r.Sample(s)
+	}
+	for _, v := range res.Violations {
+		r.Violation(v.Key, v.What, v.Detail)
+	}
+}
